@@ -985,13 +985,13 @@ PARSE_CORPUS = [
 
 def run(ctx):
     big = ctx.tier == "thorough"
-    n = ctx.n(110, 900) * ctx.search_mult
+    n = ctx.n(300, 2500) * ctx.search_mult
     cases = [json.loads(json.dumps(c)) for c in CORPUS]
     for _ in range(n):
         cases.append(gen_case(ctx.rng, big=big))
     for i in range(0, len(cases), 60):
         run_cases(ctx, cases[i:i + 60])
-    pn = ctx.n(30, 200) * ctx.search_mult
+    pn = ctx.n(60, 400) * ctx.search_mult
     pcases = [json.loads(json.dumps(c)) for c in PARSE_CORPUS]
     for _ in range(pn):
         pcases.append(gen_case(ctx.rng, big=False, parse=True))
